@@ -97,6 +97,7 @@ def check(ctx):
     check_scatter(ctx)
     from .C13 import check_index_spaces
     check_index_spaces(ctx)
+    sweep_generic_rules(ctx, ANCHOR_MODULES)
 
 
 def check_dispatch(ctx, dispatchers, rule='R-EXH/encoding'):
@@ -276,3 +277,41 @@ def check_scatter(ctx, rule='R-IDIOM/pointer-scatter'):
     ctx.ok(rule, 'sparse-readers', 'package',
            f'{n} array-indexed stores in the sparse readers examined: none '
            'uses pointer values as positions', nontrivial=n > 0)
+
+
+def sweep_generic_rules(ctx, anchored_modules):
+    """thorough tier: the generic structural rules (tiling, cursors, index
+    spaces, pointer scatter, node keys, memo keys, zip lock-step) over every
+    pipeline module that is NOT an anchor of this property.  Advisory only:
+    printed and counted, never a violation -- code outside the anchors is
+    outside what the property states."""
+    if ctx.tier != 'thorough':
+        return
+    from ..rules.tiling import (check_tiling, check_window_writes,
+                                check_whole_axis)
+    from ..rules.spaces import check_spaces
+    from ..rules.scatter import check_pointer_scatter
+    from ..rules.nodekeys import (check_node_keys, check_memo_keys,
+                                  check_zip_alignment)
+    n = 0
+    with ctx.advisory_scope():
+        for fi in ctx.db.iter_functions():
+            m = fi.module.short
+            if m.startswith(('gpu_utils',)) or m.startswith(
+                    tuple(anchored_modules)):
+                continue
+            try:
+                n += check_tiling(ctx, fi, 'R-TILE/window')
+                check_window_writes(ctx, fi)
+                check_whole_axis(ctx, fi)
+                n += CU.check_cursors(ctx, fi, 'R-CURSOR/used')
+                CU.check_advance(ctx, fi)
+                n += check_spaces(ctx, ctx.db, fi, 'R-SPACE/positions')
+                check_pointer_scatter(ctx, fi)
+                n += check_node_keys(ctx, fi)
+                n += check_memo_keys(ctx, fi)
+                n += check_zip_alignment(ctx, fi)
+            except AnalysisError:
+                continue
+    ctx.note(f'thorough sweep: generic structural rules evaluated on {n} '
+             'further instances outside the anchored modules (advisory)')
